@@ -17,9 +17,14 @@ ops  := bounds var constrain k s₁…s_k  k mn…  k mx…          → ok lo h
         lms arr pts ph pw offs                                 extract_patches_around_landmarks
         list var order mode arr pts ph pw offs cval            as_single_array=False → ok n ; S shape D data ; …
         setapi var pat arr(pixels) pts off(N | r c) oi(N | k)  Image.set_patches; pat := A arr | L n arrⁿ
+     mirrors of the translated source (Core/C13Src.lean; proved equal to the text regenerated from /repo and to the model):
+        cptb k s₁…s_k  k x…                                    Image.constrain_points_to_bounds → ok x'…
+        btrue constrain arr(mask) boundary                     BooleanImage.bounds_true → ok mins… | maxes… | err value
+        pcb n (k x…)ⁿ boundary                                 PointCloud.bounds → ok mins… | maxes… ; range… | err value
 -/
 import MenpoModel.Core.Codec
 import MenpoModel.Core.C13Api
+import MenpoModel.Core.C13Src
 
 namespace MenpoModel.Drive.C13
 open MenpoModel.Codec MenpoModel.C13
@@ -179,6 +184,24 @@ def step (toks : List String) : String :=
       pure (v, p, a, cs, off, oi)) rest with
     | none => "bad-op"
     | some (v, p, a, cs, off, oi) => fmtRes (setPatchesApi v p a cs off oi 0)
+  | "cptb" :: rest =>
+    match runP (do let s ← pList pNat; let x ← pList pInt; pure (s, x)) rest with
+    | none => "bad-op"
+    | some (s, x) =>
+      "ok " ++ " ".intercalate ((Src.constrainPointsToBounds (⟨0 :: s, []⟩ : NDArr Rat) x).map toString)
+  | "btrue" :: rest =>
+    match runP (do let c ← pBool; let m ← pArr; let b ← pInt; pure (c, m, b)) rest with
+    | none => "bad-op"
+    | some (c, m, b) => match Src.boundsTrue (toBoolArr m) b c with
+      | .error e => fmtErr e
+      | .ok (mn, mx) => "ok " ++ " ".intercalate (mn.map toString) ++ " | " ++ " ".intercalate (mx.map toString)
+  | "pcb" :: rest =>
+    match runP (do let pts ← pList (pList pRat); let b ← pRat; pure (pts, b)) rest with
+    | none => "bad-op"
+    | some (pts, b) => match Src.pcBounds pts b, Src.pcRange pts 0 with
+      | .ok (mn, mx), .ok r => "ok " ++ fmtRats mn ++ " | " ++ fmtRats mx ++ " ; " ++ fmtRats r
+      | .error e, _ => fmtErr e
+      | _, .error e => fmtErr e
   | _ => "bad-op"
 
 end MenpoModel.Drive.C13
